@@ -358,6 +358,9 @@ def step (iface : Bool) (st : State) (op : Op) : State × String :=
   | .ok w new out => (⟨w, st.env ++ new.toList⟩, out)
   | .err e => (st, e)
 
+/-- run a program: the state component of the fold `runCase` performs (without the printing) -/
+def run (iface : Bool) (st : State) (ops : List Op) : State := ops.foldl (fun s o => (step iface s o).1) st
+
 /-! ### contents (what a handle denotes) and their canonical text -/
 
 inductive CVal
